@@ -8,8 +8,8 @@
    [CTL] is the controller's address, [INDEXER] the indexer address (sender of the
    deployment, of deposits and of withdrawals).  The pkscript hash [H_addr] and the
    lower-casing [lower] are opaque functions; nothing is assumed about them. *)
-From Brc.Model Require Import Base Ledger LedgerChain.
-From Brc.Proofs Require Import LedgerP LedgerChainP.
+From Brc.Model Require Import Base Ledger LedgerChain Tie07.
+From Brc.Proofs Require Import LedgerP LedgerChainP Tie07P.
 
 (* ---------------------------------------------------------------------------------------
    supply_is_sum.  After ANY sequence of message calls (any sender, the owners included, any
@@ -201,13 +201,13 @@ Section AcrossReorgs.
   Variable INDEXER CTL : addr.
 
   Theorem C07_ledger_after_reorgs_is_run_of_survivors :
-    forall (is : list item),
+    forall (is : list LedgerChain.item),
       fst (c_run H_addr lower INDEXER CTL is)
       = g_run H_addr lower INDEXER CTL (g_init INDEXER) (surviving is).
   Proof. exact (ledger_after_reorgs H_addr lower INDEXER CTL). Qed.
 
   Theorem C07_ledger_accounting_across_reorgs :
-    forall (is : list item) (p t : list N),
+    forall (is : list LedgerChain.item) (p t : list N),
       user_sender_not_indexer INDEXER CTL (surviving is) -> H_addr p <> 0 ->
       let a := H_addr p in
       let tr := g_trace H_addr lower INDEXER CTL (g_init INDEXER) (surviving is) in
@@ -217,7 +217,7 @@ Section AcrossReorgs.
   Proof. exact (accounting_across_reorgs H_addr lower INDEXER CTL). Qed.
 
   Theorem C07_supply_only_from_bridge_across_reorgs :
-    forall (is : list item) (t : ticker),
+    forall (is : list LedgerChain.item) (t : ticker),
       user_sender_not_indexer INDEXER CTL (surviving is) ->
       let tr := g_trace H_addr lower INDEXER CTL (g_init INDEXER) (surviving is) in
       match supply (fst (c_run H_addr lower INDEXER CTL is)) t with Some s => s | None => 0 end
@@ -226,7 +226,7 @@ Section AcrossReorgs.
   Proof. exact (supply_across_reorgs H_addr lower INDEXER CTL). Qed.
 
   Theorem C07_supply_is_sum_across_reorgs :
-    forall (is : list item) (t : ticker) (s : N),
+    forall (is : list LedgerChain.item) (t : ticker) (s : N),
       supply (fst (c_run H_addr lower INDEXER CTL is)) t = Some s ->
       let st := fst (c_run H_addr lower INDEXER CTL is) in
       NoDup (holders st t) /\ s = nsum (map (balance st t) (holders st t)) /\ s < 2 ^ 256.
@@ -236,6 +236,21 @@ Print Assumptions C07_ledger_after_reorgs_is_run_of_survivors.
 Print Assumptions C07_ledger_accounting_across_reorgs.
 Print Assumptions C07_supply_only_from_bridge_across_reorgs.
 Print Assumptions C07_supply_is_sum_across_reorgs.
+
+(* ---------------------------------------------------------------------------------------
+   The tie, as a theorem.  [Tie07.l_check] is the executable checker the correspondence run
+   evaluates on every recorded engine history (it answers [None] = no item disagrees).  If it
+   accepts a case, then EVERY brc20_balance answer the engine gave anywhere in that case is
+   the model's balance in the chain ledger [c_run] of the operations recorded before it -
+   the very state the across-reorgs theorems above describe. *)
+Theorem C07_accepted_case_answers_are_the_chain_ledger :
+  forall (INDEXER CTL : addr) (addrs : list N) (its : list Tie07.item) (a : addr) (t : list N)
+         (ans : N) (rest : list Tie07.item),
+    l_check INDEXER CTL addrs (g_init INDEXER) [g_init INDEXER] (its ++ IBalance a t ans :: rest) 0 = None ->
+    ans = glue_balance H_tie lower_bytes
+            (fst (c_run H_tie lower_bytes INDEXER CTL (kitems its))) [a] t.
+Proof. exact accepted_case_every_balance_read. Qed.
+Print Assumptions C07_accepted_case_answers_are_the_chain_ledger.
 
 (* ---------------------------------------------------------------------------------------
    Non-vacuity: concrete histories.  INDEXER = 0x3ca6, a made-up controller address, a toy
@@ -317,7 +332,7 @@ Module Ex.
   (* across reorgs: a deposit in block 1, a transfer and a withdrawal in block 2, a pending
      deposit, then a reorg that drops block 2 and the pending deposit; a refused reorg (the
      chain is not that long) changes nothing *)
-  Definition k1 : list item :=
+  Definition k1 : list LedgerChain.item :=
     [ KOp (ODeposit alice ORDI 100); KBlock;
       KOp (OUser (CallTok 1001 ordi (TTransfer 1002 30))); KOp (OWithdraw bob ordi 30); KBlock;
       KOp (ODeposit bob ORDI 7);
